@@ -199,6 +199,22 @@ def main():
             g = open(r["generated"]).read()
             for k in scan:
                 scan[k] += len(re.findall(re.escape(k), g))
+    # itemised: every assumed dependency contract, external_body stand-in / trusted function and
+    # inline assumption in the text that was verified on this run (deduplicated over units)
+    items = set()
+    for r in results:
+        if r.get("generated") and os.path.exists(r["generated"]):
+            g = open(r["generated"]).read()
+            for m in re.finditer(r"assume_specification(?:<[^\[]*>)?\s*\[\s*(.*?)\s*\]", g, re.S):
+                items.add("assumed contract on a dependency: " + re.sub(r"\s+", " ", m.group(1)))
+            for m in re.finditer(r"#\[verifier::external_body\]\s*(?:pub\s+)?(?:broadcast\s+)?(?:proof\s+)?fn\s+(\w+)", g):
+                items.add("external_body (stand-in / trusted body): fn " + m.group(1))
+            for m in re.finditer(r"assume\((.*?)\);\s*// ASSUMPTION: (.*)", g):
+                items.add("inline assumption: %s — %s" % (m.group(1), m.group(2).strip()))
+    for kr in kani_results:
+        for m in re.finditer(r"- Stub: (.*)", kr.get("output", "")):
+            items.add("Kani stub: " + m.group(1).strip())
+    assumed_items = sorted(items)
     allow_p = os.path.join(VERIF, "contracts", "assumptions.allow")
     allow = json.load(open(allow_p)) if os.path.exists(allow_p) else {}
 
@@ -275,6 +291,7 @@ def main():
             extraction=stats_tot,
             extracted_items=sorted(set(sources)),
             assumption_scan=scan,
+            assumed_items=assumed_items,
             known_findings_reported=[k["what"] for (k, ob, f) in known_hits],
             bounded_checks=bounded_checks,
             known_finding_obligations=kf_obs,
